@@ -25,8 +25,10 @@ def glit(n, edges):
 DTYPE_WEIGHT = {'int': 1, 'bool': 1, 'float': 1, 'uint8': 128, 'uint16': 32768, 'int32': 2 ** 30, 'float32': 0.5, 'int8': 64}
 
 
-def mspec(n, edges, dtype='int'):
-    return {'shape': [n, n], 'coo': [[i, j, DTYPE_WEIGHT[dtype]] for (i, j) in edges], 'dtype': dtype, 'fmt': 'csr'}
+def mspec(n, edges, dtype='int', zeros=()):
+    """zeros: positions that are NOT edges but are stored explicitly with value 0 (what `A[i, j] = 0` leaves behind)"""
+    return {'shape': [n, n], 'coo': [[i, j, DTYPE_WEIGHT[dtype]] for (i, j) in edges] + [[i, j, 0] for (i, j) in zeros], 'dtype': dtype,
+            'fmt': 'csr'}
 
 
 # ---------------------------------------------------------------------------------------------
@@ -194,6 +196,11 @@ def run(ctx, scratch):
         c['order'], c['core'] = peeling(n, adj)
         c['tri'] = cliques_bruteforce(n, adj, 3)
         c['dtype'] = rng.choice(['int', 'bool', 'float', 'int', 'bool', 'float', 'uint8', 'uint16', 'int32', 'float32', 'int8'])
+        c['zeros'] = []
+        if rng.random() < 0.2 and c['dtype'] != 'bool':
+            have = set(c['E'])
+            free = [(i, j) for i in range(c['n']) for j in range(i + 1, c['n']) if (i, j) not in have]
+            c['zeros'] = [q for (i, j) in rng.sample(free, min(len(free), rng.randint(1, 4))) for q in ((i, j), (j, i))]
 
     tri_dir = []   # directed stream for count_triangles
     for _ in range(120 if quick else 800):
@@ -207,7 +214,7 @@ def run(ctx, scratch):
     # ---- run the implementation (one thread): every entry point, every selected clique size
     with Impl(scratch, threads=1) as impl:
         for c in cases:
-            r = impl.call('c11', 'everything', dict(m=mspec(c['n'], c['E'], c['dtype']), ks=c['ks']), timeout=120)
+            r = impl.call('c11', 'everything', dict(m=mspec(c['n'], c['E'], c['dtype'], c.get('zeros', ())), ks=c['ks']), timeout=120)
             ctx.traces += 4 + len(c['ks'])
             c['impl'] = r
         for c in tri_dir:
@@ -250,7 +257,7 @@ def run(ctx, scratch):
     clique_runs = 0
     for idx, c in enumerate(cases):
         n, E, fam, adj = c['n'], c['E'], c['fam'], c['adj']
-        case = dict(n=n, edges=[e for e in E if e[0] < e[1]], dtype=c['dtype'])
+        case = dict(n=n, edges=[e for e in E if e[0] < e[1]], dtype=c['dtype'], stored_zeros=[list(z) for z in c.get('zeros', ())])
         ctx.count(fam, ('u', n, tuple(E)), len(E) > 0)
         r = c['impl']
         m = c['model']
@@ -278,13 +285,22 @@ def run(ctx, scratch):
                 ctx.violation('count_triangles', 'count is not the number of 3-cliques (brute force)', case=case,
                               expected=c['tri'], observed=got, parallelize=par, threads=1, family=fam, kind='oracle',
                               directed=False)
+        # explicitly stored zeros: triangles and cliques are counted on the graph without them (the kernels run on get_dag /
+        # directed2undirected output, which drop them), and that is what is judged; the core decomposition and the clustering
+        # coefficient read indptr / indices of their argument and so take a stored zero for an edge: whether a stored zero is an edge is
+        # not settled by the documentation, and these two are not judged on such matrices (same reading as C01, part (b))
+        zeros_stored = bool(c.get('zeros'))
+        if zeros_stored:
+            ctx.extra['stored_zero_graphs'] = ctx.extra.get('stored_zero_graphs', 0) + 1
         # get_core_decomposition
         got = r['core']
         exp = None if (m is None or m['core'] is None) else [int(x) for x in m['core']]
-        if m is not None and got != {'ok': exp}:
+        if zeros_stored:
+            pass
+        elif m is not None and got != {'ok': exp}:
             ctx.violation('get_core_decomposition', 'implementation differs from the model of compute_core', case=case,
                           expected=exp, observed=got, family=fam, kind='correspondence')
-        if got != {'ok': c['core']} or ('ok' in got and not core_is_valid(n, adj, got['ok'])):
+        if not zeros_stored and (got != {'ok': c['core']} or ('ok' in got and not core_is_valid(n, adj, got['ok']))):
             ctx.violation('get_core_decomposition', 'labels are not the core numbers (peeling oracle / definition check)',
                           case=case, expected=c['core'], observed=got, family=fam, kind='oracle')
         # get_clustering_coefficient
@@ -292,7 +308,7 @@ def run(ctx, scratch):
         if m is not None and q != m['coef']:
             ctx.violation('model', 'clustering coefficient of the model differs from the exact definition', case=case,
                           expected=q, observed=m['coef'], family=fam, kind='model')
-        if q is None:
+        if q is None or zeros_stored:
             coef_skipped += 1    # no connected triple: the quotient is undefined (the code returns nan); outside the property
         else:
             for par, key in ((False, 'coef'), (True, 'coef_par')):
@@ -354,7 +370,7 @@ def run(ctx, scratch):
     for t in threads:
         with Impl(scratch, threads=t) as impl:
             for c in par_cases:
-                got = impl.call('c11', 'triangles_repeat', dict(m=mspec(c['n'], c['E'], c['dtype']), repeat=repeat), timeout=120)
+                got = impl.call('c11', 'triangles_repeat', dict(m=mspec(c['n'], c['E'], c['dtype'], c.get('zeros', ())), repeat=repeat), timeout=120)
                 ctx.traces += repeat
                 par_runs += repeat
                 ctx.count('par_t%d' % t, ('p', t, c['n'], tuple(c['E'])), len(c['E']) > 0, n=repeat)
